@@ -304,6 +304,7 @@ def plan(tier):
         T.append((ix["single"], 2, 3, 1, "D", 1))
         T.append((ix["paired"], 2, 2, 1, "D", 1))
         T.append((ix["single-redirects"], 3, 3, None, "D", 1))
+        T.append((ix["single"], 3, 3, None, "D", 2))  # reaches all 6 arrival orders of 3 chunks from 3 workers (D(1): 3 of them)
     else:
         for n in names:
             T.append((ix[n], 2, 3, None, "D", 2))
